@@ -15,7 +15,8 @@
 (*   rel/b/ev/ps   the produced data where it has an exact image:          *)
 (*      "exact"  b = program of the decomposition:  Sem(b) = Sem(a)        *)
 (*      "diag"   b = program D of the diagonalizing gates, ev = eigenvalues*)
-(*               (ring scalars):  D^dagger diag(ev) D = Sem(a)             *)
+(*               (ring scalars):  D^dagger diag(ev) D = Sem(a); judged for *)
+(*               normal Sem(a) only (otherwise no such pair can exist)     *)
 (*      "pauli"  ps = Pauli sentence <<[c, w]>>:  SUM c * P_w = Sem(a)     *)
 (*      "emitx"  TLC prints the exact Sem(b) (float bridge: eigenvalues /  *)
 (*               generator prefactors outside the ring)                    *)
@@ -65,9 +66,11 @@ EndA == /\ side = 0 /\ Finished
              /\ IF f = "ok" /\ Case.emit = 1 THEN PrintT(ToJson([tid |-> tid, u |-> stack[1]])) ELSE TRUE
         /\ side' = 1 /\ pc' = 1 /\ stack' = <<>> /\ err' = "ok" /\ UNCHANGED tid
 \* DenotedBy(kind, data) = Sem(inst)
+IsNormal(aa) == Bind(aa, LAMBDA a : Bind(Dagger(a), LAMBDA d : EqExact(MatMul(a, d), MatMul(d, a))))
 SemClause(r, ub) ==
    CASE r.rel = "exact" -> IF EqExact(Ua, ub) THEN "ok" ELSE "not-equal"
-     [] r.rel = "diag"  -> IF Len(r.ev) # 2^Case.n THEN "eigenvalue-count"
+     [] r.rel = "diag"  -> IF ~IsNormal(Ua) THEN "not-normal"     \* no unitary eigendecomposition can exist: not judged
+                           ELSE IF Len(r.ev) # 2^Case.n THEN "eigenvalue-count"
                            ELSE IF EqExact(FromEigen(ub, r.ev), Ua) THEN "ok" ELSE "eigendecomposition-not-equal"
      [] r.rel = "pauli" -> IF EqExact(PauliSumM(r.ps, Case.n), Ua) THEN "ok" ELSE "pauli-sentence-not-equal"
      [] OTHER -> "ok"
